@@ -21,7 +21,7 @@ ID = "C01"
 LEVEL = "model_checking"
 TECHNIQUE = "explicit-state BFS over cache states of the real objects; differential oracle against the memo-free twin"
 RULE = (
-    "systems = catalogue terms (contexts^d x leaves, d<=2 quick / d<=3 thorough) that contain a cache, plus hand-listed "
+    "systems = catalogue terms (contexts^d x leaves, d<=2 quick / d=3 as cache x 12 core x 12 core thorough) that contain a cache, plus hand-listed "
     "multi-entry systems (with_options derivatives sharing a cache, diamonds, cached wrappers around shared datasets); "
     "state = canonical contents of all caches; transitions = evaluate(entry, o) for every dictionary of the full "
     "product alphabet (depth-1 systems: all ordered pairs, closure to a fixpoint when it closes under the state cap; "
@@ -37,6 +37,7 @@ ASSUMPTIONS = [
 CACHE_CTX = ["cached", "ds_param", "ds_overload", "ds_callback", "ds_cb_over", "ds_effect", "ds_options_A",
              "ds_options_SY", "ds_defopts_B", "dswo_A", "dswdo_B", "ds_dispatch", "ds_abs_dispatch"]
 TOP_CACHE = ["cached", "ds_param"]
+CORE3 = ["apply", "bind_res", "switch_branch", "case_cond", "coalesce_second", "coalesce_dom", "dict", "map_ev", "ds_overload", "wo_SY", "wdo_B", "opt_default"]
 
 
 def _has_cache(term):
@@ -104,6 +105,7 @@ def _plan(tier):
     if tier == "thorough":
         plan.append(("cat", 2, [c for c in CACHE_CTX if c not in TOP_CACHE], None, "nbr"))
         plan.append(("cat2in", 2, None, [c for c in CACHE_CTX if c not in TOP_CACHE], "nbr"))
+        plan.append(("cat3", 3, TOP_CACHE, CORE3, "nbr"))
     return plan
 
 
@@ -111,6 +113,8 @@ def _terms(kind, depth, outer, inner):
     names = [c[0] for c in cat.CONTEXTS]
     if kind == "cat" and depth == 1:
         combos = [(o,) for o in outer]
+    elif kind == "cat3":
+        combos = [(o, i, j) for o in outer for i in inner for j in inner]
     elif kind == "cat":
         combos = [(o, i) for o in outer for i in names]
     else:  # cache inside any outer context
